@@ -326,6 +326,13 @@ func conflictAtoms() []ConflictAtom {
 		ss[1].addType("X", "", "b: Int")
 		ss[1].Query = append(ss[1].Query, "x1: X")
 	}, true})
+	out = append(out, ConflictAtom{"node-in-one-service-only-other-is-id-only-stub", func(ss []*SvcSpec) {
+		// the other service only refers to the type: id and nothing else, without implementing Node
+		ss[0].addType("XS", "Node", "a: Int")
+		ss[0].Query = append(ss[0].Query, "xs0: XS")
+		ss[1].addType("XS", "", "id: ID!")
+		ss[1].Query = append(ss[1].Query, "xs1: XS")
+	}, true})
 	out = append(out, ConflictAtom{"node-type-identical-in-two-services", func(ss []*SvcSpec) {
 		for si := 0; si < 2; si++ {
 			ss[si].addType("XN", "Node", "a: Int", "b: String")
@@ -370,6 +377,9 @@ func conflictAtoms() []ConflictAtom {
 	for _, v := range [][3]string{{"type", "a: Int", "a: String"}, {"nullability", "a: Int", "a: Int!"}, {"list", "a: Int", "a: [Int]"},
 		{"arg-name", "a(x: Int): Int", "a(y: Int): Int"}, {"arg-type", "a(x: Int): Int", "a(x: String): Int"}, {"arg-default", "a(x: Int = 1): Int", "a(x: Int = 2): Int"},
 		{"arg-added", "a: Int", "a(x: Int): Int"},
+		// defaults that differ inside a list / object literal only
+		{"arg-default-list", "a(x: [Int] = [1]): Int", "a(x: [Int] = [2, 3]): Int"}, {"arg-default-list-of-strings", `a(x: [String!] = ["new"]): Int`, `a(x: [String!] = ["sale", "old"]): Int`},
+		{"arg-default-object", "a(x: InDef = {p: 1}): Int", "a(x: InDef = {p: 2}): Int"},
 		// every wrapper level counts: the nullability of a list level, of the element, the depth
 		{"list-level-nullability", "a: [String!]!", "a: [String!]"}, {"list-element-nullability", "a: [String!]", "a: [String]"},
 		{"nested-list-level-nullability", "a: [[Int!]!]!", "a: [[Int!]]!"}, {"list-depth", "a: [[Int]]", "a: [Int]"},
@@ -380,6 +390,10 @@ func conflictAtoms() []ConflictAtom {
 			ss[0].Query = append(ss[0].Query, "p0: P")
 			ss[1].addType("P", "", v[2])
 			ss[1].Query = append(ss[1].Query, "p1: P")
+			if strings.Contains(v[1], "InDef") {
+				ss[0].Extra = append(ss[0].Extra, "input InDef { p: Int }")
+				ss[1].Extra = append(ss[1].Extra, "input InDef { p: Int }")
+			}
 		}, true})
 		out = append(out, ConflictAtom{"shared-input-field-different-" + v[0], func(ss []*SvcSpec) {
 			if strings.Contains(v[1], "(") || strings.Contains(v[2], "(") {
@@ -528,23 +542,25 @@ func init() {
 	c03 := mk("C03")
 	c03.Rule = "case = (schema set = base + <=3 (thorough 4) world atoms incl. type-system atoms: wrapper shapes, defaults of every kind, descriptions, deprecations, custom directives, interface chains, shared types/enums, 3rd/4th service; " +
 		"permutation of the service list; merger in {default, node-hiding}); the real merger is called directly; oracle: result loads as a valid schema, canonical facts of the result == union of the services' canonical facts " +
-		"(types, kinds, fields, argument names/types/defaults, enum values, union members, implements, possible types, input fields, directive definitions, root types), and every operation (<=2 fields) of each service validates against the result; non-trivial = >=2 services"
+		"(types, kinds, fields, argument names/types/defaults, enum values, union members, implements, possible types, input fields, directive definitions, root types), and every operation (<=2 fields) of each service and the introspection operations validate against the result; plus the conflicting sets of C05 (2 bases x 46 conflict atoms x permutations): " +
+		"refusing them is fine, a merge that succeeds must not have lost or overridden a declaration; non-trivial = >=2 services"
 	c03.Assumptions = []string{"schemacanon.Canon defines schema equality (descriptions and applied directives excluded as the statement does not list them)", "all service sets here are mergeable by construction"}
 	c03.RunJob = func(tier, job string, from int, em *Emitter) { mergeRun("C03", tier, job, from, em) }
+	c03.Jobs = func(tier string) []string { return append([]string{"conflicts"}, mergeJobs(tier, "C03")...) }
 	Props["C03"] = c03
 
 	c04 := mk("C04")
 	c04.Rule = "same schema-set enumeration as C03; oracle on MergeResult.TypeURLMap: every root field routed to exactly the one declaring service, every non-id field of every object type routed to a service whose SDL declares it, " +
 		"IsImplementsNode <=> implements Node, GetURLs() == services that contributed fields, no unrouted field; plus a start-up part: the gateway is constructed through the real ParallelRemoteSchemaIntrospector over 7 schema sets with no or one service " +
-		"failing its introspection (each position), refusing to start is accepted, a gateway that starts is held to the same oracle over the services that answered; non-trivial = >=2 services"
+		"failing its introspection (each position), refusing to start is accepted, a gateway that starts is held to the same oracle over the services that answered; plus the conflicting sets of C05: if the merger accepts one, its table is held to the same oracle; non-trivial = >=2 services"
 	c04.Assumptions = []string{"the services' SDL is the ground truth for ownership"}
 	c04.RunJob = func(tier, job string, from int, em *Emitter) { mergeRun("C04", tier, job, from, em) }
-	c04.Jobs = func(tier string) []string { return append([]string{"introfail"}, mergeJobs(tier, "C04")...) }
+	c04.Jobs = func(tier string) []string { return append([]string{"introfail", "conflicts"}, mergeJobs(tier, "C04")...) }
 	Props["C04"] = c04
 
 	c05 := mk("C05")
-	c05.Rule = "case = (mergeable schema set (base + <=2 (thorough 3) world atoms), one conflict atom out of 43: same root field twice (query, mutation), one name two kinds (all 15 kind pairs), Node in one service only, Node type with duplicated field, " +
-		"shared type/input partial overlap or subset, shared (input) field with different type/nullability/list wrapper/argument name/type/default, union with different members (overlapping, and one list a strict subset of the other); plus 4 acceptable differences) x all permutations of the service list; " +
+	c05.Rule = "case = (mergeable schema set (base + <=2 (thorough 3) world atoms), one conflict atom out of 47: same root field twice (query, mutation), one name two kinds (all 15 kind pairs), Node in one service only, Node type with duplicated field, " +
+		"shared type/input partial overlap or subset, shared (input) field with different type/nullability/list wrapper/argument name/type/default (also defaults that differ inside a list or object literal only), union with different members (overlapping, and one list a strict subset of the other); plus 4 acceptable differences) x all permutations of the service list; " +
 		"oracle: Merge returns an error for a conflict (no panic, no silent success), accept/reject identical across permutations, and on accept canonical facts and Node-field routes identical across permutations; " +
 		"the mergeable sets themselves are also checked for permutation invariance; non-trivial = a conflict atom was applied"
 	c05.Assumptions = []string{"the conflict catalogue is exactly the list in the property statement"}
@@ -618,9 +634,103 @@ func c04IntroFail(from int, em *Emitter) {
 	}
 }
 
+// c03Conflicts: C03 speaks about merges that succeed. A set with conflicting declarations may be refused (C05 asks for
+// that); if the merger accepts it, the result must still carry every fact of every service - which it cannot
+// where two services disagree, and which it does not where a declaration got lost on the way.
+func c03Conflicts(prop string, from int, em *Emitter) {
+	idx := 0
+	for _, base := range []string{"Wmin", "W0"} {
+		for _, ca := range conflictAtoms() {
+			if !ca.Conflict {
+				continue
+			}
+			ss, _ := specsOf(WorldDesc{Base: base})
+			ca.Apply(ss)
+			var sdls, urls []string
+			var schemas []*ast.Schema
+			valid := true
+			for _, sp := range ss {
+				sdl := sp.SDL()
+				sc, err := gqlparser.LoadSchema(&ast.Source{Input: sdl})
+				if err != nil {
+					valid = false
+					break
+				}
+				schemas = append(schemas, sc)
+				sdls = append(sdls, sdl)
+				urls = append(urls, sp.URL)
+			}
+			if !valid {
+				continue
+			}
+			for _, order := range permutations(len(ss)) {
+				idx++
+				if idx-1 < from {
+					continue
+				}
+				atoms := []string{"base-" + base, "conflict-" + ca.Name, "conflicting-set"}
+				if order[0] != 0 {
+					atoms = append(atoms, "permuted")
+				}
+				rp := map[string]interface{}{"world": base, "conflict": ca.Name, "order": order, "sdl": sdls}
+				if !em.Begin(idx-1, atoms, rp) {
+					if em.Capped() {
+						return
+					}
+					continue
+				}
+				out := runMerge(sdls, urls, order, false)
+				set := map[string]bool{}
+				switch {
+				case out.panicv != "":
+					set["merge panicked: "+Template(out.panicv)] = true
+				case out.err != "":
+					// refused: nothing to say here
+				case out.res == nil || out.res.Schema == nil:
+					set["merge succeeded without a schema"] = true
+				case prop == "C04":
+					// whatever the merger accepts, its routing table has to be right about it
+					w2 := &World{Name: base}
+					for i := range schemas {
+						w2.Services = append(w2.Services, &Service{URL: urls[i], SDL: sdls[i], Schema: schemas[i]})
+					}
+					for _, sg := range c04Sigs(w2, out.res) {
+						if !strings.HasPrefix(sg, "HARNESS") {
+							set[sg] = true
+						}
+					}
+				default:
+					want := map[string]string{}
+					for _, sc := range schemas {
+						for k, v := range schemacanon.Canon(sc, canonOpts) {
+							if old, ok := want[k]; ok && old != v {
+								set["conflicting declarations merged silently: "+schemacanon.Class(k)] = true
+							}
+							want[k] = v
+						}
+					}
+					for _, d := range schemacanon.Diff(want, schemacanon.Canon(out.res.Schema, canonOpts)) {
+						if d.Kind != "CHANGED" {
+							set["merged-schema "+d.Sig()] = true
+						}
+					}
+				}
+				if len(set) > 0 {
+					em.Fail(atoms, setToList(set), rp)
+				}
+				em.Done(true)
+			}
+		}
+	}
+}
+
 func mergeRun(prop, tier, job string, from int, em *Emitter) {
 	if job == "introfail" {
 		c04IntroFail(from, em)
+		return
+	}
+	if job == "conflicts" {
+		c03Conflicts(prop, from, em)
 		return
 	}
 	ws := worldsOfJob(job)
